@@ -112,7 +112,7 @@ func checkC04(e *Engine, r *Report) {
 			ok := len(cs) == 1
 			if ok {
 				a := cs[0].Common().Args
-				cs2 := sliceFrom(a[2])
+				cs2 := backSlice(a[2], SliceOpts{ThroughCallArgs: alwaysThrough, IntoCallees: func(f *ssa.Function) bool { return pkgPathOf(f) == pkgEvmVM }, Depth: 2})
 				ok = sliceFrom(a[1]).HasValue(w.fn.Params[1]) && cs2.HasValue(w.fn.Params[2]) && hasFieldLoad(cs2, "cStateDb", "evmDenom")
 			}
 			r.Check(ok, fnKey(w.fn)+" › helper(address, (evmDenom, amount))", e.Pos(w.fn.Pos()), "coins = NewCoin(d.evmDenom, b) for `address`", "the balance change is not exactly `b` of the EVM denomination for the given address")
